@@ -30,6 +30,9 @@ def run(rep):
     rep.guard(c17.l2, rep, w)
     import c08
     rep.guard(c08.x8, rep, w)   # JumpFinally is emitted only where a handler of the same function is registered at run time
+    import c03, c06
+    rep.guard(c03.t4, rep, w)   # every encoding limit is refused on its exceeding side (a dropped limit error lets truncated operands through)
+    rep.guard(c06.s2, rep, w)   # a captured local leaves the stack through CloseUpvalue on every exit path: the closure keeps naming that variable
 
 
 # ---- VM side: bytes consumed ----------------------------------------------------------------------------------
